@@ -206,24 +206,30 @@ Verdict run_case(Case const& c, Ctx& ctx)
 			R.clients.push_back(cl);
 			++ctx.ops_executed;
 		}
-		// known finding (known_findings.txt, C16): a client that hangs up while the server is blocked writing a response
-		// larger than the congestion window wedges the server for good (the simulated TCP has no reset, the server is
-		// not reading, so it never sees the EOF). Excluded by construction unless --x-strict.
+		// known finding (known_findings.txt, C16): a client that hangs up while the server is blocked writing wedges the
+		// server for good (the simulated TCP has no reset, a write to a closed peer never fails, the server is not reading
+		// and never sees the EOF). The server blocks as soon as the responses it owes for the requests sent before the
+		// hang-up - one large one, or several pipelined ones together - need more than the first segments the initial
+		// window admits without an acknowledgement (> 1475 bytes outstanding and one more segment to send); the closed
+		// client never acknowledges. Excluded by construction unless --x-strict.
 		for (std::size_t i = 0; i < R.clients.size(); ++i)
 			{
 				Client& cl = *R.clients[i];
 				if (cl.spec.early < 0) continue;
-				std::size_t consumed = 0; int k = 0;
+				std::size_t consumed = 0; int k = 0; long long owed = 0;
 				for (auto const& q : cl.spec.reqs)
 				{
 					consumed += request_text(q, k++).size();
 					if (consumed > std::size_t(cl.spec.early)) break;
-					long long const body = q.kind == 1 ? R.data_size : q.kind == 2 ? q.b - q.a + 1 : 0;
-					if (body >= 1400)
-					{
-						in_wedge_scope = true;
-						if (!ctx.opt.extra.count("strict")) { ++ctx.excluded["C16 known finding: client hangs up while a large response is being written"]; ctx.label("excluded_known_wedge"); cl.spec.early = -1; }
-					}
+					if (q.kind >= 5) break; // stalls and malformed requests are not answered, nothing after them is
+					long long const body = q.kind == 0 ? (long long)HELLO_BODY.size() : q.kind == 1 ? R.data_size : q.kind == 2 ? q.b - q.a + 1 : 0;
+					owed += body + 120; // status line and headers: at most ~120 bytes
+					if (q.close || !R.keepalive) break;
+				}
+				if (owed >= 1400)
+				{
+					in_wedge_scope = true;
+					if (!ctx.opt.extra.count("strict")) { ++ctx.excluded["C16 known finding: client hangs up while more response bytes are owed than the window admits unacknowledged"]; ctx.label("excluded_known_wedge"); cl.spec.early = -1; }
 				}
 			}
 		// ---- reference model
